@@ -264,6 +264,12 @@ def tensor_binop(it, op, a, b, node):
                     break
     kind = "tensor" if "tensor" in kinds else "ndarray"
     r = it.fresh(t, shape, kind, node)
+    if op == "Div" and tb is not None and isinstance(b, VTens):
+        from .ops_tensor import _sum_of_squares
+
+        if _sum_of_squares(tb):
+            # x / (a^2 + b^2): the squared modulus leaves the float64 range long before the quotient does
+            it.numeric.append((it.site(node), "x / (a^2 + b^2) [range]", tb, tuple(fr.func.qualname for fr in it.frames if fr.func is not None)))
     if op in ("Div", "FloorDiv") and tb is not None and isinstance(b, VTens):
         # every tensor division with its divisor (numeric facet: what magnitude the divisor can reach)
         it.__dict__.setdefault("tensor_divisions", []).append((it.site(node), tb, tuple(fr.func.qualname for fr in it.frames if fr.func is not None)))
@@ -418,6 +424,11 @@ def compare(it, op, a, b, node):
     if isinstance(a, VTuple) and isinstance(b, VTuple) and op in ("Eq", "NotEq"):
         r = tuple_eq(a, b)
         if r is None:
+            # equal except for sizes named by different symbols: the comparison is "those sizes are equal"
+            if len(a.items) == len(b.items):
+                diffs = [(x, y) for x, y in zip(a.items, b.items) if dim_of(x) != dim_of(y)]
+                if len(diffs) == 1 and num_term(diffs[0][0]) is not None and num_term(diffs[0][1]) is not None:
+                    return VNum("bool", T.app("cmp_" + op, num_term(diffs[0][0]), num_term(diffs[0][1])))
             return VUnknown("shape-eq", "bool")
         return VConst(r if op == "Eq" else not r)
     if op in ("Eq", "NotEq") and isinstance(a, VUnknown) and isinstance(b, VUnknown) and a.kind == b.kind and a.kind in ("dtype", "device", "layout") and a.tag == b.tag:
@@ -429,6 +440,8 @@ def compare(it, op, a, b, node):
         wa, wb = dtype_width(a), dtype_width(b)
         if wa in (32, 64) and wb in (32, 64):
             return VConst((wa == wb) == (op == "Eq"))
+        if (wa in (32, 64) and wb == "other") or (wb in (32, 64) and wa == "other"):
+            return VConst(op != "Eq")  # a floating-point dtype is not bool / an integer dtype
     if isinstance(a, VUnknown) and a.kind == "shape" or isinstance(b, VUnknown) and b.kind == "shape":
         return VUnknown("shape-eq", "bool")
     return VUnknown("cmp", "bool")
@@ -695,6 +708,12 @@ def index_tensor(it, tv, items, node):
             if isinstance(x, VTens) and x.kind == "tensor" and x.shape is not None and len(x.shape) == 1 and not (isinstance(x.shape[0], int) and x.shape[0] != 1) and x.obj.valkind != "bool":
                 it.interop.append((it.site(node), tv, x))
     unk = [x for x in items if isinstance(x, VUnknown)]
+    for x in adv:
+        if isinstance(x, VTens) and x.kind == "tensor" and tv.kind == "tensor" and getattr(x.obj, "float_literal", False) and not x.view:
+            # torch: "tensors used as indices must be long, int, byte or bool tensors" (a floating-point tensor is none of them)
+            from .interp import RaiseEx
+
+            raise RaiseEx("IndexError", it.site(node), "a floating-point tensor is used as an index", True)
     # ---- shape
     new_shape = None
     if shape is not None:
